@@ -5,7 +5,7 @@ The primitives are abstract (`Prims2`); their algebraic laws enter as fields of 
 as hypotheses.  Tables are the regenerated ones (`Gen.crypto…`): a table fact a theorem needs is
 discharged by `decide` over them, so a changed table in /repo breaks the proof.
 -/
-import KmipModel.CryptoPlans
+import KmipModel.Lemmas.CryptoPlans
 import KmipModel.Gen.Tables
 import KmipModel.Gen.CryptoTables
 namespace Kmip.C06Plans
@@ -52,90 +52,910 @@ theorem verify_plan_matches_sign_plan (T : Tables2) (p : SigParams) (sp : SigPla
   simp only at hc
   unfold signPlan at h
   unfold verifyPlan
-  simp only at h ⊢
+  -- the selection agrees
+  suffices hsel : ∀ hh a, signSelect T ⟨dsa, alg, hash, padding⟩ = .ok (hh, a) → hh.isSome = true →
+      verifySelect T ⟨dsa, alg, hash, padding⟩ = .ok (hh, a) by
+    cases hs : signSelect T ⟨dsa, alg, hash, padding⟩ with
+    | error e => simp [hs] at h
+    | ok r =>
+      obtain ⟨hh, a⟩ := r
+      simp only [hs] at h
+      have hsome : hh.isSome = true := by
+        cases hh with
+        | none => simp [signFinish] at h
+        | some _ => rfl
+      rw [hsel hh a hs hsome]
+      exact verifyFinish_of_signFinish T hh a padding sp h
+  intro hh a hs hsome
+  unfold signSelect at hs
+  unfold verifySelect
+  simp only at hs ⊢
   cases dsa with
   | some d =>
+    simp only [Option.bind_some]
     cases hd : lookupDsa T d with
-    | none => simp [hd] at h
+    | none => simp [hd] at hs; rw [← hs.1] at hsome; simp at hsome
     | some pr =>
       obtain ⟨dh, da⟩ := pr
       have hc' := hc d dh da rfl hd
-      simp only [hd] at h
-      simp only [Option.bind_some, hd]
-      have e1 : ((hash.bind (lookupHash T)).map (·.1)).isSome = true →
-          ((hash.bind (lookupHash T)).map (·.1)) = some dh := by
-        intro hs
-        cases hh : hash with
-        | none => simp [hh] at hs
-        | some hv =>
-          cases hl : lookupHash T hv with
-          | none => simp [hh, hl] at hs
-          | some r =>
-            obtain ⟨hn, dg⟩ := r
-            have := hc'.1 hv hn dg hh hl
-            simp [hl, this]
+      simp only [hd, Except.ok.injEq, Prod.mk.injEq] at hs
       have c1 : ((Option.map (fun x => x.fst) (hash.bind (lookupHash T))).isSome &&
           (Option.map (fun x => x.fst) (hash.bind (lookupHash T)) != some dh)) = false := by
-        cases hs : (Option.map (fun x => x.fst) (hash.bind (lookupHash T))).isSome with
-        | false => rfl
-        | true => simp [e1 hs]
+        cases hh' : hash with
+        | none => simp
+        | some hv =>
+          cases hl : lookupHash T hv with
+          | none => simp [hl]
+          | some r =>
+            obtain ⟨hn, dg⟩ := r
+            have := hc'.1 hv hn dg hh' hl
+            simp [hl, this]
       have c2 : (alg.isSome && (alg != some da)) = false := by
         cases ha : alg with
         | none => rfl
-        | some a => simp [hc'.2 a ha]
-      simp only [c1, c2, Bool.false_eq_true, if_false]
-      by_cases hr : (some da == some rsa) = true
-      · simp only [hr, if_true] at h ⊢
-        cases padding with
-        | none => simp at h
-        | some pd =>
-          simp only at h
-          by_cases h1 : (pd == padPSS) = true
-          · simp only [h1, if_true] at h
-            have : (some pd == some padPSS) = true := by simpa using h1
-            simp only [this, if_true]; exact h
-          · simp only [h1, Bool.false_eq_true, if_false] at h
-            have n1 : (some pd == some padPSS) = false := by simpa using h1
-            simp only [n1, Bool.false_eq_true, if_false]
-            by_cases h2 : (pd == padPKCS1v15) = true
-            · simp only [h2, if_true] at h
-              have : (some pd == some padPKCS1v15) = true := by simpa using h2
-              simp only [this, if_true]
-              cases hl : List.lookup pd T.asymPadding with
-              | none => simp [hl] at h
-              | some _ => simpa [hl] using h
-            · simp [h2] at h
-      · simp [hr] at h
+        | some a' => simp [hc'.2 a' ha]
+      simp only [c1, c2, Bool.false_eq_true, if_false, Except.ok.injEq, Prod.mk.injEq]
+      exact hs
   | none =>
     simp only [Option.bind_none]
     by_cases hb : (alg.isSome && hash.isSome) = true
-    · simp only [hb, if_true] at h
-      cases hh : (Option.map (fun x => x.fst) (hash.bind (lookupHash T))) with
-      | none => simp [hh] at h
-      | some hn =>
-        simp only [hh] at h ⊢
-        by_cases hr : (alg == some rsa) = true
-        · simp only [hr, if_true] at h ⊢
-          cases padding with
-          | none => simp at h
-          | some pd =>
-            simp only at h
-            by_cases h1 : (pd == padPSS) = true
-            · simp only [h1, if_true] at h
-              have : (some pd == some padPSS) = true := by simpa using h1
-              simp only [this, if_true]; exact h
-            · simp only [h1, Bool.false_eq_true, if_false] at h
-              have n1 : (some pd == some padPSS) = false := by simpa using h1
-              simp only [n1, Bool.false_eq_true, if_false]
-              by_cases h2 : (pd == padPKCS1v15) = true
-              · simp only [h2, if_true] at h
-                have : (some pd == some padPKCS1v15) = true := by simpa using h2
-                simp only [this, if_true]
-                cases hl : List.lookup pd T.asymPadding with
-                | none => simp [hl] at h
-                | some _ => simpa [hl] using h
-              · simp [h2] at h
-        · simp [hr] at h
-    · simp [hb] at h
+    · simpa [hb] using hs
+    · simp [hb] at hs
+
+/-- **Sign mirrors SignatureVerify** (the converse), for the tuples whose digital signature algorithm is
+absent or known to the engine: what `verify_signature` accepts, `sign` accepts with the same scheme and
+hash.  (For an UNKNOWN digital signature algorithm the two functions differ: `verify_signature` ignores
+it and uses the request's own algorithms, `sign` refuses — see `unknown_dsa_verify_only`.) -/
+theorem sign_plan_matches_verify_plan (T : Tables2) (p : SigParams) (vp : SigPlan)
+    (h : verifyPlan T p = .ok vp) (hd : ∀ d, p.dsa = some d → (lookupDsa T d).isSome = true)
+    (hp : (T.asymPadding.lookup padPKCS1v15).isSome = true) : signPlan T p = .ok vp := by
+  obtain ⟨dsa, alg, hash, padding⟩ := p
+  simp only at hd
+  unfold verifyPlan at h
+  unfold signPlan
+  cases hv : verifySelect T ⟨dsa, alg, hash, padding⟩ with
+  | error e => simp [hv] at h
+  | ok r =>
+    obtain ⟨hh, a⟩ := r
+    simp only [hv] at h
+    have hfin := signFinish_of_verifyFinish T hh a padding vp hp h
+    -- verify accepted, so the algorithm is RSA and a hash was selected
+    have ha : a = some rsa := by
+      unfold verifyFinish at h
+      by_cases hr : (a == some rsa) = true
+      · simpa using hr
+      · simp [hr] at h
+    have hsome : hh.isSome = true := by
+      cases hh with
+      | none => simp [signFinish] at hfin
+      | some _ => rfl
+    suffices hs : signSelect T ⟨dsa, alg, hash, padding⟩ = .ok (hh, a) by
+      rw [hs]; exact hfin
+    unfold verifySelect at hv
+    unfold signSelect
+    simp only at hv ⊢
+    cases dsa with
+    | some d =>
+      have hk := hd d rfl
+      cases hl : lookupDsa T d with
+      | none => simp [hl] at hk
+      | some pr =>
+        obtain ⟨dh, da⟩ := pr
+        simp only [Option.bind_some, hl] at hv ⊢
+        split at hv
+        · cases hv
+        · split at hv
+          · cases hv
+          · exact hv
+    | none =>
+      simp only [Option.bind_none, Except.ok.injEq, Prod.mk.injEq] at hv
+      obtain ⟨hv1, hv2⟩ := hv
+      have halg : alg.isSome = true := by rw [hv2, ha]; rfl
+      have hhash : hash.isSome = true := by
+        cases hash with
+        | none => rw [← hv1] at hsome; simp at hsome
+        | some _ => rfl
+      subst hv2
+      simp [halg, hhash, hv1]
+
+/-- **SignatureVerify reports valid for what Sign produced**: for every parameter tuple, key, randomness
+and message, if Sign succeeds under a tuple that does not contradict itself, SignatureVerify under the same
+tuple with the matching public key answers valid — given the law of the primitive (`Prims2.verify_sign`). -/
+theorem verify_sign (P : Prims2) (T : Tables2) (p : SigParams) (key rnd msg sg : Bytes)
+    (h : signOp P T p key rnd msg = .ok sg) (hc : Consistent T p) :
+    verifyOp P T p (P.pubOf key) msg sg = .ok true := by
+  unfold signOp at h
+  cases hs : signPlan T p with
+  | error e => simp [hs] at h
+  | ok pl =>
+    simp only [hs] at h
+    cases hr : P.rsaSign pl key rnd msg with
+    | none => simp [hr] at h
+    | some s =>
+      simp only [hr, Except.ok.injEq] at h
+      subst h
+      unfold verifyOp
+      rw [verify_plan_matches_sign_plan T p pl hs hc]
+      simp [P.verify_sign pl key rnd msg s hr]
+
+/-- the code as it is: `sign` lets a digital signature algorithm REPLACE the other two algorithms,
+`verify_signature` COMPARES them — so a contradictory tuple is signed under and then refused
+(finding c06:verify-refuses-sign-parameters; `Consistent` above is exactly what rules it out) -/
+theorem sign_accepts_what_verify_refuses :
+    signPlan realTables ⟨some 5, some 4, some 4, some 10⟩ = .ok ⟨.pss, [83, 72, 65, 50, 53, 54]⟩ ∧
+    verifyPlan realTables ⟨some 5, some 4, some 4, some 10⟩ = .error .verifyHashMismatch ∧
+    signPlan realTables ⟨some 5, some 5, none, some 8⟩ = .ok ⟨.pkcs1v15, [83, 72, 65, 50, 53, 54]⟩ ∧
+    verifyPlan realTables ⟨some 5, some 5, none, some 8⟩ = .error .verifyAlgMismatch := by decide +kernel
+
+/-- the code as it is: a digital signature algorithm the engine does not know (here DSA with SHA-1) is
+ignored by `verify_signature` and refused by `sign` -/
+theorem unknown_dsa_verify_only :
+    verifyPlan realTables ⟨some 9, some 4, some 4, some 10⟩ = .ok ⟨.pss, [83, 72, 65, 49]⟩ ∧
+    signPlan realTables ⟨some 9, some 4, some 4, some 10⟩ = .error .signHashUnsupported := by decide +kernel
+
+/-- on the real tables `sign` never meets a padding class that is missing from the table -/
+theorem real_pkcs1v15_class_present : (realTables.asymPadding.lookup padPKCS1v15).isSome = true := by decide +kernel
+
+/-- a digital signature algorithm alone determines scheme and hash: every entry of the real table, with
+either padding, is accepted by both functions with the hash the entry names -/
+theorem real_dsa_alone_accepted :
+    Gen.cryptoDsa.all (fun r =>
+      [padPSS, padPKCS1v15].all (fun pd =>
+        let pad : SigPad := if pd == padPSS then .pss else .pkcs1v15
+        signPlan realTables ⟨some r.1, none, none, some pd⟩ == .ok ⟨pad, r.2.2.1⟩ &&
+        verifyPlan realTables ⟨some r.1, none, none, some pd⟩ == .ok ⟨pad, r.2.2.1⟩)) = true := by decide +kernel
+
+/-! ### asymmetric Encrypt / Decrypt -/
+
+/-- **Decrypt mirrors Encrypt**: for every (algorithm, padding method, hashing algorithm) tuple the two
+functions accept the same tuples, select the same scheme (OAEP with the same hash for digest and MGF1, or
+PKCS#1 v1.5) and refuse with the same error. -/
+theorem asym_dec_plan_matches_enc_plan (T : Tables2) (p : AsymParams) : asymDecPlan T p = asymEncPlan T p := by
+  obtain ⟨alg, padding, hash⟩ := p
+  unfold asymDecPlan asymEncPlan lookupHash
+  simp only
+  split
+  · split
+    · cases hash with
+      | none => rfl
+      | some h =>
+        simp only [Option.bind_some]
+        cases List.lookup h T.encHashes <;> rfl
+    · rfl
+  · rfl
+
+/-- **Decrypt inverts Encrypt**, for every accepted tuple, key pair, randomness and message the
+primitive accepts — given the law of the primitive (`Prims2.rsa_dec_enc`). -/
+theorem asym_decrypt_encrypt (P : Prims2) (T : Tables2) (p : AsymParams) (key rnd msg ct : Bytes)
+    (h : asymEncryptOp P T p (P.pubOf key) rnd msg = .ok ct) : asymDecryptOp P T p key ct = .ok msg := by
+  unfold asymEncryptOp at h
+  unfold asymDecryptOp
+  rw [asym_dec_plan_matches_enc_plan]
+  cases hs : asymEncPlan T p with
+  | error e => simp [hs] at h
+  | ok s =>
+    simp only [hs] at h ⊢
+    cases he : P.rsaEnc s (P.pubOf key) rnd msg with
+    | none => simp [he] at h
+    | some c =>
+      simp only [he, Except.ok.injEq] at h
+      subst h
+      simp [P.rsa_dec_enc s key rnd msg c he]
+
+/-- asymmetric encryption is RSA only, with OAEP (a supported hash is then mandatory) or PKCS#1 v1.5 -/
+theorem asym_plan_accepts_iff (T : Tables2) (p : AsymParams) (s : AsymScheme) :
+    asymEncPlan T p = .ok s ↔
+      p.alg = some rsa ∧
+      ((p.padding = some padPKCS1v15 ∧ s = .pkcs1v15) ∨
+       (p.padding = some padOAEP ∧ ∃ h hn dg, p.hash = some h ∧ lookupHash T h = some (hn, dg) ∧ s = .oaep hn)) := by
+  obtain ⟨alg, padding, hash⟩ := p
+  unfold asymEncPlan
+  simp only
+  constructor
+  · intro h
+    split at h
+    · rename_i ha
+      have ha' : alg = some rsa := by simpa using ha
+      refine ⟨ha', ?_⟩
+      split at h
+      · rename_i hp
+        have hp' : padding = some padOAEP := by simpa using hp
+        right
+        refine ⟨hp', ?_⟩
+        cases hash with
+        | none => simp at h
+        | some hv =>
+          simp only [Option.bind_some] at h
+          cases hl : lookupHash T hv with
+          | none => simp [hl] at h
+          | some r =>
+            obtain ⟨hn, dg⟩ := r
+            simp only [hl, Except.ok.injEq] at h
+            exact ⟨hv, hn, dg, rfl, hl, h.symm⟩
+      · split at h
+        · rename_i hp
+          have hp' : padding = some padPKCS1v15 := by simpa using hp
+          left
+          simp only [Except.ok.injEq] at h
+          exact ⟨hp', h.symm⟩
+        · cases h
+    · cases h
+  · rintro ⟨ha, h⟩
+    subst ha
+    rcases h with ⟨hp, hs⟩ | ⟨hp, hv, hn, dg, hh, hl, hs⟩
+    · subst hp; subst hs; simp [padPKCS1v15, padOAEP]
+    · subst hp; subst hs; subst hh
+      simp [hl]
+
+/-! ### DeriveKey: the length of the derived material -/
+
+/-- `_process_derive_key` accepts a Cryptographic Length exactly when it is a positive multiple of 8, and
+then works with that many bytes -/
+theorem derive_length_iff (b : Int) (n : Nat) :
+    deriveLength (some b) = .ok n ↔ (b % 8 = 0 ∧ 0 < b ∧ (n : Int) * 8 = b) := by
+  unfold deriveLength
+  simp only
+  constructor
+  · intro h
+    split at h
+    · rename_i hm
+      have hm' : b % 8 = 0 := by simpa using hm
+      split at h
+      · cases h
+      · rename_i hp
+        simp only [Except.ok.injEq] at h
+        refine ⟨hm', by omega, ?_⟩
+        omega
+    · cases h
+  · rintro ⟨hm, hp, hn⟩
+    have c1 : (b % 8 == 0) = true := by simpa using hm
+    have c2 : ¬ (b / 8 ≤ 0) := by omega
+    simp only [c1, if_true, c2, if_false, Except.ok.injEq]
+    omega
+
+theorem derive_length_absent : deriveLength none = .error .lengthMissing := rfl
+
+/-- the post-processing on lengths: the result has EXACTLY the requested number of bytes, or the request
+fails (Cryptographic Failure) — never shorter, never longer, whatever the primitive returned -/
+theorem derive_output_exact (req outLen m : Nat) (h : deriveOutput req outLen = .ok m) : m = req := by
+  unfold deriveOutput at h
+  split at h
+  · cases h
+  · split at h <;> simp only [Except.ok.injEq] at h <;> omega
+
+theorem derive_output_fails_iff (req outLen : Nat) :
+    deriveOutput req outLen = .error .outputTooShort ↔ outLen < req := by
+  unfold deriveOutput
+  constructor
+  · intro h
+    split at h
+    · assumption
+    · split at h <;> cases h
+  · intro h
+    simp [h]
+
+/-- the same on bytes: exactly `req` bytes, and they are the leading bytes of the primitive's output -/
+theorem derive_finish_length (req : Nat) (out o : Bytes) (h : deriveFinish req out = .ok o) :
+    o.length = req ∧ o = out.take req := by
+  unfold deriveFinish at h
+  split at h
+  · cases h
+  · rename_i h1
+    split at h
+    · simp only [Except.ok.injEq] at h
+      subst h
+      exact ⟨by simp [List.length_take]; omega, rfl⟩
+    · rename_i h2
+      simp only [Except.ok.injEq] at h
+      subst h
+      have : out.length = req := by omega
+      exact ⟨this, by rw [← this, List.take_length]⟩
+
+/-- **derive_output_length** — for EVERY DeriveKey request (every method, hash, salt, iteration count,
+cipher, mode, padding, IV, key and data, every primitive): if `_process_derive_key` stores a value, the
+value has exactly Cryptographic Length / 8 bytes — never shorter, never longer; in every other case the
+request fails.  No law of the primitives is needed: the check-then-truncate step enforces it. -/
+theorem derive_output_length (P : Prims2) (T : Tables2) (r : DeriveRequest) (rnd out : Bytes) (b : Int)
+    (hb : r.bits = some b) (h : processDeriveKey P T r rnd = .ok out) : (out.length : Int) * 8 = b := by
+  unfold processDeriveKey at h
+  rw [hb] at h
+  cases hl : deriveLength (some b) with
+  | error e => simp [hl] at h
+  | ok n =>
+    simp only [hl] at h
+    have hn := ((derive_length_iff b n).mp hl).2.2
+    cases hp : derivePlan T (engineParams r n) with
+    | error e => simp [hp] at h
+    | ok pl =>
+      simp only [hp] at h
+      cases hr : rawDerive P pl r rnd with
+      | error e => simp [hr] at h
+      | ok raw =>
+        simp only [hr] at h
+        rw [(derive_finish_length n raw out h).1]
+        exact hn
+
+/-- the Cryptographic Length attribute of a derived SymmetricKey is the requested one -/
+theorem derived_key_length_attribute (b : Int) (n : Nat) (h : deriveLength (some b) = .ok n) :
+    (derivedKeyLengthAttr n : Int) = b := by
+  have := ((derive_length_iff b n).mp h).2.2
+  unfold derivedKeyLengthAttr
+  omega
+
+/-- without a usable Cryptographic Length nothing is derived -/
+theorem derive_refuses_bad_length (P : Prims2) (T : Tables2) (r : DeriveRequest) (rnd : Bytes)
+    (h : ∀ b, r.bits = some b → ¬ (b % 8 = 0 ∧ 0 < b)) :
+    ∃ e, processDeriveKey P T r rnd = .error e ∧ e.reason = .invalidField := by
+  unfold processDeriveKey
+  cases hb : r.bits with
+  | none => exact ⟨.lengthMissing, rfl, rfl⟩
+  | some b =>
+    have hb' := h b hb
+    unfold deriveLength
+    simp only
+    by_cases hm : (b % 8 == 0) = true
+    · have hm' : b % 8 = 0 := by simpa using hm
+      have : b / 8 ≤ 0 := by
+        have : ¬ 0 < b := fun hp => hb' ⟨hm', hp⟩
+        omega
+      simp only [hm, if_true, this]
+      exact ⟨.lengthNotPositive, rfl, rfl⟩
+    · simp only [hm, Bool.false_eq_true, if_false]
+      exact ⟨.lengthNotMultiple, rfl, rfl⟩
+
+/-! #### per method -/
+
+/-- the three KDFs (HKDF, PBKDF2, SP 800-108 counter mode) are constructed with exactly the requested
+length, keyed with the key material; HKDF gets the salt and, as `info`, the derivation data; PBKDF2 the
+salt and the iteration count; the counter-mode KDF the derivation data as its fixed input -/
+theorem derive_kdf_plan (T : Tables2) (p : DeriveParams) (pl : DerivePlan) (h : derivePlan T p = .ok pl)
+    (hk : pl.kind = .hkdf ∨ pl.kind = .pbkdf2 ∨ pl.kind = .kbkdf) :
+    pl.askLength = some p.length ∧ pl.key = .keyMaterial ∧
+    (∃ hv hn dg, p.hash = some hv ∧ lookupHash T hv = some (hn, dg) ∧ pl.hash = some hn ∧ pl.digestBytes = dg) ∧
+    (pl.kind = .hkdf → p.method = mHMAC ∧ pl.data = presence p.ddata .derivationData ∧ pl.salt = presence p.salt .salt) ∧
+    (pl.kind = .pbkdf2 → p.method = mPBKDF2 ∧ pl.salt = .salt ∧ ∃ i : Int, p.iterations = some i ∧ 1 ≤ i ∧
+        pl.iterations = some i.toNat) ∧
+    (pl.kind = .kbkdf → p.method = mNIST800_108_C ∧ pl.data = .derivationData) := by
+  unfold derivePlan at h
+  cp_split_all h
+  cp_plan_cases h
+
+/-- **the KDFs return exactly the requested length** (by their length laws), so for HKDF, PBKDF2 and
+SP 800-108 the post-processing neither truncates nor fails: the stored value IS the KDF output -/
+theorem derive_kdf_exact (P : Prims2) (T : Tables2) (r : DeriveRequest) (rnd : Bytes) (n : Nat) (pl : DerivePlan)
+    (hp : derivePlan T (engineParams r n) = .ok pl)
+    (hk : pl.kind = .hkdf ∨ pl.kind = .pbkdf2 ∨ pl.kind = .kbkdf) :
+    ∃ raw, rawDerive P pl r rnd = .ok raw ∧ raw.length = n ∧ deriveFinish n raw = .ok raw := by
+  have hplan := derive_kdf_plan T (engineParams r n) pl hp hk
+  have hask : pl.askLength = some n := hplan.1
+  have fin : ∀ raw : Bytes, raw.length = n → deriveFinish n raw = .ok raw := by
+    intro raw hl
+    unfold deriveFinish
+    simp [hl]
+  unfold rawDerive
+  rcases hk with hk | hk | hk
+  · simp only [hk, hask, Option.getD_some]
+    exact ⟨_, rfl, P.hkdf_len _ _ _ _ _, fin _ (P.hkdf_len _ _ _ _ _)⟩
+  · simp only [hk, hask, Option.getD_some]
+    exact ⟨_, rfl, P.pbkdf2_len _ _ _ _ _, fin _ (P.pbkdf2_len _ _ _ _ _)⟩
+  · simp only [hk, hask, Option.getD_some]
+    exact ⟨_, rfl, P.kbkdf_len _ _ _ _, fin _ (P.kbkdf_len _ _ _ _)⟩
+
+/-- HASH derivation: one hash of EITHER the derivation data OR the key material (never both, never
+neither), nothing else is asked of the backend -/
+theorem derive_hash_plan (T : Tables2) (p : DeriveParams) (pl : DerivePlan) (h : derivePlan T p = .ok pl)
+    (hk : pl.kind = .hash) :
+    p.method = mHASH ∧ pl.askLength = none ∧
+    (∃ hv hn dg, p.hash = some hv ∧ lookupHash T hv = some (hn, dg) ∧ pl.hash = some hn ∧ pl.digestBytes = dg) ∧
+    ((p.ddata.isSome = true ∧ p.keyMaterial = none ∧ pl.data = .derivationData) ∨
+     (p.ddata = none ∧ p.keyMaterial.isSome = true ∧ pl.data = .keyMaterial)) := by
+  unfold derivePlan at h
+  cp_split_all h
+  cp_plan_cases h
+
+/-- … and the request then succeeds exactly when the requested length does not exceed the digest (given
+that the hash returns `digestBytes` bytes), storing the leading bytes of the digest -/
+theorem derive_hash_outcome (P : Prims2) (pl : DerivePlan) (hk : pl.kind = .hash) (r : DeriveRequest)
+    (rnd : Bytes) (n : Nat) (hlen : ∀ d, (P.hash (pl.hash.getD []) d).length = pl.digestBytes) :
+    ∃ raw, rawDerive P pl r rnd = .ok raw ∧
+      ((n ≤ pl.digestBytes ∧ deriveFinish n raw = .ok (raw.take n)) ∨
+       (pl.digestBytes < n ∧ deriveFinish n raw = .error .outputTooShort)) := by
+  unfold rawDerive
+  simp only [hk]
+  refine ⟨_, rfl, ?_⟩
+  have hl := hlen ((r.pick pl.data).getD [])
+  unfold deriveFinish
+  by_cases hc : n ≤ pl.digestBytes
+  · left
+    refine ⟨hc, ?_⟩
+    have c1 : ¬ (n > (P.hash (pl.hash.getD []) ((r.pick pl.data).getD [])).length) := by omega
+    simp only [c1, if_false]
+    split
+    · rfl
+    · rename_i h2
+      have : (P.hash (pl.hash.getD []) ((r.pick pl.data).getD [])).length = n := by omega
+      rw [← this, List.take_length]
+  · right
+    refine ⟨by omega, ?_⟩
+    have c1 : n > (P.hash (pl.hash.getD []) ((r.pick pl.data).getD [])).length := by omega
+    simp [c1]
+
+/-- derivation by ENCRYPT is `_encrypt_symmetric` on (key material, derivation data, IV): the plan is the
+M9 Encrypt plan without associated data and without a tag length (so GCM is refused) -/
+theorem derive_encrypt_plan (T : Tables2) (p : DeriveParams) (pl : DerivePlan) (h : derivePlan T p = .ok pl)
+    (hk : pl.kind = .symEncrypt) :
+    p.method = mENCRYPT ∧ pl.key = .keyMaterial ∧ pl.data = .derivationData ∧ p.ddata.isSome = true ∧
+    p.keyMaterial.isSome = true ∧
+    ∃ a s, p.encAlg = some a ∧ a ≠ rsa ∧ encPlan T.sym ⟨a, p.mode, p.padding, p.iv, false, none⟩ = .ok s ∧
+      pl.sym = some s := by
+  unfold derivePlan at h
+  cp_split_all h
+  cp_plan_cases h
+
+/-! #### no internal error (feeds C13) -/
+
+/-- a `derive_key` call the code as it is handles: key material present, derivation data present where the
+method hashes / encrypts / feeds it to the counter-mode KDF, a positive iteration count, and an HKDF output
+no longer than 255 digests -/
+structure DeriveWellFormed (T : Tables2) (p : DeriveParams) : Prop where
+  key : p.keyMaterial.isSome = true
+  data : (p.method = mNIST800_108_C ∨ p.method = mENCRYPT) → p.ddata.isSome = true
+  iters : ∀ i : Int, p.iterations = some i → 1 ≤ i
+  hkdf : p.method = mHMAC → ∀ hv hn dg, p.hash = some hv → lookupHash T hv = some (hn, dg) → p.length ≤ 255 * dg
+
+/-- **derive_plan_total** (partial: under `DeriveWellFormed`; the four theorems after it show that each
+clause is needed for the code as it is — findings c06:derive-internal-error:*): every well-formed parameter
+tuple gives a plan or a refusal with a KMIP reason (Invalid Field, Cryptographic Failure); no exception
+escapes `derive_key`. -/
+theorem derive_plan_total_partial (T : Tables2) (p : DeriveParams) (hw : DeriveWellFormed T p) (e : PErr)
+    (h : derivePlan T p = .error e) : e.reason ≠ .internal := by
+  obtain ⟨hkey, hdata, hiters, hhkdf⟩ := hw
+  unfold derivePlan at h
+  cp_split_all h
+  all_goals first
+    | (cases h; done)
+    | (simp only [Except.error.injEq] at h; subst h; simp [PErr.reason]; done)
+    | (simp only [Except.error.injEq] at h; subst h
+       rw [asym_enc_refusal_reason T _ _ ‹_›]; simp; done)
+    | (exfalso
+       have hm : p.method = mHMAC := by simpa using ‹(p.method == mHMAC) = true›
+       have := hhkdf hm _ _ _ ‹p.hash = some _› ‹lookupHash T _ = some (_, _)›
+       omega)
+    | (exfalso; have := hiters _ ‹p.iterations = some _›; omega)
+    | (exfalso; simp_all; done)
+
+/-- the code as it is, 1: HKDF asked for more than 255 digests: `hkdf.HKDF(…)` raises ValueError -/
+theorem derive_hkdf_escapes (T : Tables2) (p : DeriveParams) (hv : Nat) (hn : HashName) (dg : Nat)
+    (hm : p.method = mHMAC) (hh : p.hash = some hv) (hl : lookupHash T hv = some (hn, dg)) (hlen : 255 * dg < p.length) :
+    derivePlan T p = .error (.internal .hkdfLength) := by
+  unfold derivePlan
+  simp [hm, hh, hl, mHMAC, mENCRYPT, hlen]
+
+/-- the code as it is, 2: PBKDF2 with an iteration count below 1: `pbkdf2.PBKDF2HMAC(…)` raises -/
+theorem derive_pbkdf2_escapes (T : Tables2) (p : DeriveParams) (hv : Nat) (hn : HashName) (dg : Nat) (i : Int)
+    (hm : p.method = mPBKDF2) (hh : p.hash = some hv) (hl : lookupHash T hv = some (hn, dg))
+    (hs : p.salt.isSome = true) (hi : p.iterations = some i) (hlt : i < 1) :
+    derivePlan T p = .error (.internal .pbkdf2Iterations) := by
+  unfold derivePlan
+  cases hsalt : p.salt with
+  | none => simp [hsalt] at hs
+  | some sv => simp [hm, hh, hl, mHMAC, mENCRYPT, mPBKDF2, mHASH, hi, hlt]
+
+/-- the code as it is, 3: SP 800-108 counter mode without derivation data: `kbkdf.KBKDFHMAC(fixed=None, …)` raises -/
+theorem derive_kbkdf_escapes (T : Tables2) (p : DeriveParams) (hv : Nat) (hn : HashName) (dg : Nat)
+    (hm : p.method = mNIST800_108_C) (hh : p.hash = some hv) (hl : lookupHash T hv = some (hn, dg))
+    (hd : p.ddata = none) : derivePlan T p = .error (.internal .kbkdfNoFixedInput) := by
+  unfold derivePlan
+  simp [hm, hh, hl, mHMAC, mENCRYPT, mPBKDF2, mHASH, mNIST800_108_C, hd]
+
+/-- the code as it is, 4: ENCRYPT in a padded mode (CBC, ECB) without derivation data: the padder is fed
+None outside any try block -/
+theorem derive_encrypt_escapes (T : Tables2) (p : DeriveParams) (a : Nat) (s : Crypto.Plan)
+    (hm : p.method = mENCRYPT) (ha : p.encAlg = some a) (hr : a ≠ rsa) (hk : p.keyMaterial.isSome = true)
+    (hs : encPlan T.sym ⟨a, p.mode, p.padding, p.iv, false, none⟩ = .ok s) (hp : s.padding.isSome = true)
+    (hd : p.ddata = none) : derivePlan T p = .error (.internal .padNoPlainText) := by
+  have hl : ∃ r, T.sym.symAlgs.lookup a = some r := by
+    unfold encPlan at hs
+    cases hx : List.lookup a T.sym.symAlgs with
+    | none => simp [hx] at hs
+    | some r => exact ⟨r, rfl⟩
+  obtain ⟨r, hl⟩ := hl
+  have hkn : p.keyMaterial.isNone = false := by
+    cases hkm : p.keyMaterial with
+    | none => simp [hkm] at hk
+    | some _ => rfl
+  unfold derivePlan
+  simp [hm, ha, hr, hl, hkn, hs, hd, hp]
+
+/-- what `_process_derive_key` hands to the engine always has key material; so a DeriveKey REQUEST is
+answered General Failure by the code as it is exactly in the four cases above -/
+theorem server_derive_well_formed (T : Tables2) (r : DeriveRequest) (n : Nat)
+    (hdata : (r.method = mNIST800_108_C ∨ r.method = mENCRYPT) → r.ddata.isSome = true)
+    (hiters : ∀ i : Int, r.iterations = some i → 1 ≤ i)
+    (hhkdf : r.method = mHMAC → ∀ hv hn dg, r.hash = some hv → lookupHash T hv = some (hn, dg) → n ≤ 255 * dg) :
+    DeriveWellFormed T (engineParams r n) := by
+  refine ⟨rfl, ?_, hiters, hhkdf⟩
+  intro hm
+  have := hdata hm
+  simp only [engineParams]
+  cases hd : r.ddata with
+  | none => simp [hd] at this
+  | some _ => rfl
+
+/-- no other plan function of this model lets an exception escape, on the real tables: MAC,
+SignatureVerify, asymmetric Encrypt / Decrypt, key wrapping (crypto engine and `_process_get`), key creation
+answer with a plan or a KMIP reason for EVERY parameter tuple; so does Sign. -/
+theorem plans_no_internal_error :
+    (∀ alg e, macPlan realTables alg = .error e → e.reason ≠ .internal) ∧
+    (∀ p e, verifyPlan realTables p = .error e → e.reason ≠ .internal) ∧
+    (∀ p e, signPlan realTables p = .error e → e.reason ≠ .internal) ∧
+    (∀ p e, asymEncPlan realTables p = .error e → e.reason ≠ .internal) ∧
+    (∀ p e, asymDecPlan realTables p = .error e → e.reason ≠ .internal) ∧
+    (∀ m a e, wrapPlan m a = .error e → e.reason ≠ .internal) ∧
+    (∀ m ps enc e, getWrapPlan m ps enc = .error e → e.reason ≠ .internal) ∧
+    (∀ alg len e, createSymPlan realTables alg len = .error e → e.reason ≠ .internal) ∧
+    (∀ alg len e, createPairPlan realTables alg len = .error e → e.reason ≠ .internal) := by
+  refine ⟨?_, ?_, ?_, ?_, ?_, ?_, ?_, ?_, ?_⟩
+  · intro alg e h
+    unfold macPlan at h
+    cp_split_all h
+    cp_refusal_cases h
+  · intro p e h
+    unfold verifyPlan at h
+    cases hs : verifySelect realTables p with
+    | error e' =>
+      simp only [hs, Except.error.injEq] at h
+      subst h
+      unfold verifySelect at hs
+      simp only at hs
+      cp_split_all hs
+      cp_refusal_cases hs
+    | ok r =>
+      obtain ⟨hh, a⟩ := r
+      simp only [hs] at h
+      unfold verifyFinish at h
+      cp_split_all h
+      cp_refusal_cases h
+  · intro p e h
+    unfold signPlan at h
+    cases hs : signSelect realTables p with
+    | error e' =>
+      simp only [hs, Except.error.injEq] at h
+      subst h
+      unfold signSelect at hs
+      cp_split_all hs
+      cp_refusal_cases hs
+    | ok r =>
+      obtain ⟨hh, a⟩ := r
+      simp only [hs] at h
+      unfold signFinish at h
+      cp_split_all h
+      all_goals first
+        | (cases h; done)
+        | (simp only [Except.error.injEq] at h; subst h; simp [PErr.reason]; done)
+        | (exfalso
+           rename_i pd _ _ hpd _ hl
+           have hpd' : pd = padPKCS1v15 := by simpa using hpd
+           have hcls := real_pkcs1v15_class_present
+           rw [← hpd', hl] at hcls
+           simp at hcls)
+  · intro p e h
+    unfold asymEncPlan at h
+    cp_split_all h
+    cp_refusal_cases h
+  · intro p e h
+    rw [asym_dec_plan_matches_enc_plan] at h
+    unfold asymEncPlan at h
+    cp_split_all h
+    cp_refusal_cases h
+  · intro m a e h
+    unfold wrapPlan at h
+    cp_split_all h
+    cp_refusal_cases h
+  · intro m ps enc e h
+    unfold getWrapPlan wrapPlan at h
+    cp_split_all h
+    cp_refusal_cases h
+  · intro alg len e h
+    unfold createSymPlan at h
+    cp_split_all h
+    cp_refusal_cases h
+  · intro alg len e h
+    unfold createPairPlan at h
+    cp_split_all h
+    cp_refusal_cases h
+
+/-! ### MAC -/
+
+/-- **mac_plan_family**: the MAC family follows the table the algorithm is in — an algorithm of the HMAC
+table is computed as HMAC over the hash the table names (whatever the cipher table says); an algorithm that
+is only in the symmetric cipher table as CMAC over that cipher (a stream cipher is a Cryptographic
+Failure); everything else, and an absent algorithm, is Invalid Field. -/
+theorem mac_plan_family (T : Tables2) (a : Nat) :
+    (∀ r, T.macHashes.lookup a = some r → macPlan T (some a) = .ok (.hmac r.2.1 (r.2.2 / 8))) ∧
+    (∀ cls bb, T.macHashes.lookup a = none → T.sym.symAlgs.lookup a = some (cls, bb) →
+        macPlan T (some a) = if bb = 0 then .error .cmacStreamCipher else .ok (.cmac a cls (bb / 8))) ∧
+    (T.macHashes.lookup a = none → T.sym.symAlgs.lookup a = none → macPlan T (some a) = .error .macUnsupported) ∧
+    macPlan T none = .error .macUnsupported := by
+  refine ⟨?_, ?_, ?_, rfl⟩
+  · intro r hr; simp [macPlan, hr]
+  · intro cls bb h1 h2
+    by_cases hb : bb = 0 <;> simp [macPlan, h1, h2, hb]
+  · intro h1 h2; simp [macPlan, h1, h2]
+
+/-- on the regenerated data the two tables are disjoint (no algorithm is both an HMAC and a cipher), so
+the order of the two look-ups in `mac` does not matter -/
+theorem mac_tables_disjoint :
+    Gen.cryptoMacHashes.all (fun r => (Gen.cryptoSymAlgs.lookup r.1).isNone) = true ∧
+    Gen.cryptoSymAlgs.all (fun r => (Gen.cryptoMacHashes.lookup r.1).isNone) = true := by decide +kernel
+
+/-- the MAC has the size of the digest (HMAC) resp. of the cipher block (CMAC) the tables state; the hash
+an HMAC algorithm is mapped to has the digest size the hashing-algorithm table gives for the same hash -/
+theorem real_mac_lengths :
+    Gen.cryptoMacHashes.all (fun r =>
+      macPlan realTables (some r.1) == .ok (.hmac r.2.2.1 (r.2.2.2 / 8)) &&
+      Gen.cryptoEncHashes.any (fun e => e.2.2.1 == r.2.2.1 && e.2.2.2 == r.2.2.2)) = true ∧
+    Gen.cryptoSymAlgs.all (fun r =>
+      macPlan realTables (some r.1) ==
+        (if r.2.2 == 0 then .error .cmacStreamCipher else .ok (.cmac r.1 r.2.1 (r.2.2 / 8)))) = true := by
+  decide +kernel
+
+/-! ### key wrapping -/
+
+/-- **wrap_plan_only_nist**: `wrap_key` wraps only with wrapping method Encrypt and block cipher mode NIST
+Key Wrap (RFC 3394); every other pair, and an absent method or mode, is Invalid Field -/
+theorem wrap_plan_only_nist (m a : Option Nat) :
+    (wrapPlan m a = .ok .aesKeyWrap ↔ (m = some wrapENCRYPT ∧ a = some nistKeyWrap)) ∧
+    (∀ e, wrapPlan m a = .error e → e.reason = .invalidField) := by
+  unfold wrapPlan
+  constructor
+  · constructor
+    · intro h
+      split at h
+      · rename_i hm
+        split at h
+        · rename_i ha
+          exact ⟨by simpa using hm, by simpa using ha⟩
+        · cases h
+      · cases h
+    · rintro ⟨rfl, rfl⟩; rfl
+  · intro e h
+    split at h
+    · split at h
+      · cases h
+      · simp only [Except.error.injEq] at h; subst h; rfl
+    · simp only [Except.error.injEq] at h; subst h; rfl
+
+/-- what `_process_get` lets through to `wrap_key`: wrapping method Encrypt (else Operation Not Supported),
+cryptographic parameters present (else Invalid Field), encoding option No Encoding (else Encoding Option
+Error), block cipher mode NIST Key Wrap (else Invalid Field) -/
+theorem get_wrap_plan_iff (m : Option Nat) (ps : Option (Option Nat)) (enc : Option Nat) :
+    (getWrapPlan m ps enc = .ok .aesKeyWrap ↔
+      (m = some wrapENCRYPT ∧ ps = some (some nistKeyWrap) ∧ enc = some noEncoding)) ∧
+    (m ≠ some wrapENCRYPT → getWrapPlan m ps enc = .error .getWrapMethodNotSupported) ∧
+    (m = some wrapENCRYPT → ps = none → getWrapPlan m ps enc = .error .getWrapParamsMissing) ∧
+    (m = some wrapENCRYPT → ps ≠ none → enc ≠ some noEncoding → getWrapPlan m ps enc = .error .getWrapEncoding) := by
+  refine ⟨⟨?_, ?_⟩, ?_, ?_, ?_⟩
+  · intro h
+    unfold getWrapPlan at h
+    split at h
+    · cases h
+    · rename_i hm
+      have hm' : m = some wrapENCRYPT := by simpa using hm
+      split at h
+      · cases h
+      · rename_i mode
+        split at h
+        · cases h
+        · rename_i he
+          have he' : enc = some noEncoding := by simpa using he
+          have := ((wrap_plan_only_nist m mode).1.mp h).2
+          exact ⟨hm', by rw [this], he'⟩
+  · rintro ⟨rfl, rfl, rfl⟩; rfl
+  · intro hm
+    unfold getWrapPlan
+    simp [hm]
+  · rintro rfl rfl; rfl
+  · rintro rfl hps he
+    unfold getWrapPlan
+    cases ps with
+    | none => exact absurd rfl hps
+    | some mode => simp [he]
+
+/-! ### key creation -/
+
+/-- every key size of the table is a whole number of bytes -/
+def KeySizesWholeBytes (T : Tables2) : Prop := ∀ a ks k, T.keySizes.lookup a = some ks → k ∈ ks → k % 8 = 0
+
+theorem real_key_sizes_whole_bytes :
+    Gen.cryptoSymKeySizes.all (fun r => r.2.all (fun k => k % 8 == 0)) = true := by decide +kernel
+
+theorem real_tables_whole_bytes : KeySizesWholeBytes realTables := by
+  intro a ks k hl hk
+  have h := real_key_sizes_whole_bytes
+  rw [List.all_eq_true] at h
+  have hmem : (a, ks) ∈ Gen.cryptoSymKeySizes := mem_of_lookup hl
+  have := h (a, ks) hmem
+  simp only [List.all_eq_true] at this
+  simpa using this k hk
+
+/-- **create_key_length**: a created symmetric key has exactly the requested length (`os.urandom` is asked
+for length / 8 bytes and every allowed length is a whole number of bytes); a length that is not one of the
+algorithm's key sizes, an algorithm that is not a symmetric cipher of the table, and an absent algorithm
+are refused with Invalid Field. -/
+theorem create_key_length (T : Tables2) (hT : KeySizesWholeBytes T) (alg : Option Nat) (len : Int) :
+    (∀ pl, createSymPlan T alg len = .ok pl →
+      (pl.randomBytes : Int) * 8 = len ∧ alg = some pl.alg ∧
+      ∃ ks, T.keySizes.lookup pl.alg = some ks ∧ ∃ k ∈ ks, (k : Int) = len) ∧
+    (∀ a ks, alg = some a → T.keySizes.lookup a = some ks → (∀ k ∈ ks, (k : Int) ≠ len) →
+      createSymPlan T alg len = .error .createAlgUnsupported ∨ createSymPlan T alg len = .error .createLengthInvalid) ∧
+    (∀ e, createSymPlan T alg len = .error e → e.reason = .invalidField) := by
+  refine ⟨?_, ?_, ?_⟩
+  · intro pl h
+    unfold createSymPlan at h
+    cases alg with
+    | none => cases h
+    | some a =>
+      simp only at h
+      cases hl : List.lookup a T.sym.symAlgs with
+      | none => simp [hl] at h
+      | some r =>
+        obtain ⟨cls, bb⟩ := r
+        simp only [hl] at h
+        split at h
+        · rename_i hany
+          simp only [Except.ok.injEq] at h
+          subst h
+          rw [List.any_eq_true] at hany
+          obtain ⟨k, hk, hkl⟩ := hany
+          have hkl' : (k : Int) = len := by simpa using hkl
+          cases hks : List.lookup a T.keySizes with
+          | none => simp [hks] at hk
+          | some ks =>
+            simp only [hks, Option.getD_some] at hk
+            have hm := hT a ks k hks hk
+            refine ⟨?_, rfl, ks, rfl, k, hk, hkl'⟩
+            simp only
+            omega
+        · cases h
+  · intro a ks ha hks hne
+    subst ha
+    unfold createSymPlan
+    simp only
+    cases hl : List.lookup a T.sym.symAlgs with
+    | none => left; rfl
+    | some r =>
+      right
+      obtain ⟨cls, bb⟩ := r
+      simp only
+      have : (((T.keySizes.lookup a).getD []).any (fun k => (k : Int) == len)) = false := by
+        rw [hks]
+        simp only [Option.getD_some, List.any_eq_false]
+        intro k hk
+        simpa using hne k hk
+      simp [this]
+  · intro e h
+    unfold createSymPlan at h
+    cp_split_all h
+    all_goals first | (cases h; done) | (simp only [Except.error.injEq] at h; subst h; rfl)
+
+/-- the key sizes the engine accepts for the ciphers it supports (regenerated; what `key_sizes` of the
+backend classes says — note AES: 512 is listed by the backend class and therefore accepted) -/
+theorem real_key_sizes :
+    Gen.cryptoSymKeySizes.lookup 3 = some [128, 192, 256, 512] ∧
+    Gen.cryptoSymKeySizes.lookup 2 = some [64, 128, 192] ∧
+    Gen.cryptoSymKeySizes.map (·.1) = Gen.cryptoSymAlgs.map (·.1) := by decide +kernel
+
+/-- **create_pair_rsa_only**: on the real tables a key pair is created for RSA only — by
+`rsa.generate_private_key(public_exponent = 65537, key_size = the requested length)`, the public key
+exported as PKCS#1, the private key as PKCS#8; every other algorithm, and an absent one, is Invalid Field -/
+theorem create_pair_rsa_only (alg : Option Nat) (len : Int) :
+    (∀ pl, createPairPlan realTables alg len = .ok pl ↔ (alg = some rsa ∧ pl = ⟨65537, len, fmtPKCS1, fmtPKCS8⟩)) ∧
+    (alg ≠ some rsa → createPairPlan realTables alg len = .error .pairAlgUnsupported) := by
+  have hreal : realTables.asymAlgs = [rsa] := by decide +kernel
+  constructor
+  · intro pl
+    unfold createPairPlan
+    cases alg with
+    | none => simp
+    | some a =>
+      simp only [hreal]
+      by_cases ha : a = rsa
+      · subst ha
+        simp only [List.contains_cons, beq_self_eq_true, Bool.true_or, if_true, Except.ok.injEq, true_and]
+        exact eq_comm
+      · simp [ha]
+  · intro hne
+    unfold createPairPlan
+    cases alg with
+    | none => rfl
+    | some a =>
+      have ha : a ≠ rsa := fun h => hne (by rw [h])
+      have : realTables.asymAlgs.contains a = false := by rw [hreal]; simp [ha]
+      simp only [this, Bool.false_eq_true, if_false]
+
+/-! ### non-vacuity: the hypotheses of the main theorems are satisfiable, the accepting branches exist -/
+
+/-- a toy backend satisfying every law of `Prims2` -/
+def toyPrims : Prims2 where
+  sym := ⟨fun _ _ _ _ x => x, fun _ _ _ _ x => x, fun _ _ _ _ _ => rfl⟩
+  hash := fun _ d => d
+  hmac := fun _ _ d => d
+  cmac := fun _ _ d => d
+  hkdf := fun _ n _ _ _ => List.replicate n 0
+  pbkdf2 := fun _ n _ _ _ => List.replicate n 0
+  kbkdf := fun _ n _ _ => List.replicate n 0
+  pubOf := fun k => k
+  rsaSign := fun _ k _ m => some (k ++ m)
+  rsaVerify := fun _ k m sg => sg == k ++ m
+  rsaEnc := fun _ _ _ m => some m
+  rsaDec := fun _ _ c => some c
+  aesWrap := fun _ d => some d
+  verify_sign := by intro s k r m sg h; simp only [Option.some.injEq] at h; subst h; simp
+  rsa_dec_enc := by intro s k r m c h; simp only [Option.some.injEq] at h; subst h; rfl
+  hkdf_len := by intros; simp
+  pbkdf2_len := by intros; simp
+  kbkdf_len := by intros; simp
+
+-- Sign accepts consistent tuples (so `verify_plan_matches_sign_plan` is not vacuous) …
+example : signPlan realTables ⟨some 5, some 4, some 6, some 10⟩ = .ok ⟨.pss, [83, 72, 65, 50, 53, 54]⟩ := by decide +kernel
+example : signPlan realTables ⟨none, some 4, some 4, some 8⟩ = .ok ⟨.pkcs1v15, [83, 72, 65, 49]⟩ := by decide +kernel
+-- … and `Consistent` holds for them
+example : Consistent realTables ⟨none, some 4, some 4, some 8⟩ := by
+  intro d dh da h; cases h
+example : verifyOp toyPrims realTables ⟨none, some 4, some 4, some 8⟩ [1] [2] [1, 2] = .ok true := by decide +kernel
+example : signOp toyPrims realTables ⟨none, some 4, some 4, some 8⟩ [1] [] [2] = .ok [1, 2] := by decide +kernel
+-- asymmetric encryption accepts OAEP/SHA-256 and PKCS#1 v1.5
+example : asymEncPlan realTables ⟨some 4, some 2, some 6⟩ = .ok (.oaep [83, 72, 65, 50, 53, 54]) := by decide +kernel
+example : asymEncryptOp toyPrims realTables ⟨some 4, some 8, none⟩ [9] [] [1, 2, 3] = .ok [1, 2, 3] := by decide +kernel
+-- DeriveKey: an accepted request per method, a truncated hash, a refused length
+example : (derivePlan realTables ⟨3, 16, some 4, some 16, some 6, some 8, none, none, none, none, some 0⟩).toOption.map
+    (fun pl => (pl.kind, pl.askLength)) = some (.hkdf, some 16) := by decide +kernel
+example : (derivePlan realTables ⟨1, 20, none, some 16, some 4, some 8, some 3, none, none, none, some 0⟩).toOption.map
+    (fun pl => (pl.kind, pl.iterations)) = some (.pbkdf2, some 3) := by decide +kernel
+example : (derivePlan realTables ⟨5, 20, some 4, some 16, some 4, none, none, none, none, none, some 0⟩).toOption.map
+    (fun pl => pl.kind) = some .kbkdf := by decide +kernel
+example : (derivePlan realTables ⟨2, 16, none, some 16, some 4, none, none, none, none, none, some 0⟩).toOption.map
+    (fun pl => (pl.kind, pl.digestBytes, pl.data)) = some (.hash, 20, .keyMaterial) := by decide +kernel
+example : (derivePlan realTables ⟨4, 16, some 20, some 16, none, none, none, some 3, some 1, some 3, some 16⟩).toOption.map
+    (fun pl => (pl.kind, pl.rawLen 20 0)) = some (.symEncrypt, 32) := by decide +kernel
+example : deriveOutput 16 20 = .ok 16 ∧ deriveOutput 21 20 = .error .outputTooShort ∧ deriveOutput 20 20 = .ok 20 := by decide
+example : deriveLength (some 128) = .ok 16 ∧ deriveLength (some (-8)) = .error .lengthNotPositive ∧
+    deriveLength (some 12) = .error .lengthNotMultiple ∧ deriveLength (some 0) = .error .lengthNotPositive := by decide
+example : processDeriveKey toyPrims realTables
+    ⟨some 64, 3, [1, 2], some [3], some [4], none, none, some 6, none, none, none⟩ [] = .ok [0, 0, 0, 0, 0, 0, 0, 0] := by
+  decide +kernel
+-- `DeriveWellFormed` is satisfiable, and each of its clauses is needed on the real tables
+example : DeriveWellFormed realTables ⟨3, 16, some 4, some 16, some 6, some 8, none, none, none, none, some 0⟩ := by
+  refine ⟨rfl, fun _ => rfl, ?_, ?_⟩
+  · intro i h; cases h
+  · intro _ hv hn dg hh hl
+    simp only [Option.some.injEq] at hh
+    subst hh
+    have : lookupHash realTables 6 = some ([83, 72, 65, 50, 53, 54], 32) := by decide +kernel
+    rw [this] at hl
+    simp only [Option.some.injEq, Prod.mk.injEq] at hl
+    obtain ⟨_, hdg⟩ := hl
+    subst hdg
+    decide
+example : derivePlan realTables ⟨3, 8161, some 4, some 16, some 6, some 8, none, none, none, none, some 0⟩ =
+    .error (.internal .hkdfLength) := by decide +kernel
+example : derivePlan realTables ⟨1, 16, none, some 16, some 6, some 8, some 0, none, none, none, some 0⟩ =
+    .error (.internal .pbkdf2Iterations) := by decide +kernel
+example : derivePlan realTables ⟨5, 16, none, some 16, some 6, none, none, none, none, none, some 0⟩ =
+    .error (.internal .kbkdfNoFixedInput) := by decide +kernel
+example : derivePlan realTables ⟨4, 16, none, some 16, none, none, none, some 3, some 1, some 3, some 16⟩ =
+    .error (.internal .padNoPlainText) := by decide +kernel
+-- MAC, wrapping, creation
+example : macPlan realTables (some 9) = .ok (.hmac [83, 72, 65, 50, 53, 54] 32) ∧
+    macPlan realTables (some 3) = .ok (.cmac 3 "AES" 16) ∧ macPlan realTables (some 22) = .error .cmacStreamCipher ∧
+    macPlan realTables (some 4) = .error .macUnsupported := by decide +kernel
+example : wrapPlan (some 1) (some 13) = .ok .aesKeyWrap ∧ wrapPlan (some 1) (some 1) = .error .wrapAlgUnsupported := by decide
+example : getWrapPlan (some 1) (some (some 13)) (some 1) = .ok .aesKeyWrap ∧
+    (getWrapPlan (some 2) (some (some 13)) (some 1)).toOption = none := by decide
+example : createSymPlan realTables (some 3) 256 = .ok ⟨3, "AES", 32, 1⟩ ∧
+    createSymPlan realTables (some 3) 255 = .error .createLengthInvalid ∧
+    createSymPlan realTables (some 4) 256 = .error .createAlgUnsupported := by decide +kernel
+example : createPairPlan realTables (some 4) 2048 = .ok ⟨65537, 2048, 3, 4⟩ := by decide +kernel
 
 end Kmip.C06Plans
